@@ -411,6 +411,7 @@ theorem apply_sclr {s s' : St} {o : Op} (h : Roles s) (e : apply s o = .ok s') (
   | update m => exact updateState_sclr h e
   | fraud au ra hh rev p rw => exact fraud_sclr h.core.uniq e
   | obsolete au vs => exact markObsolete_sclr h e
+  | punish au a' rw => exact (punish_frame h.core.uniq (punishProposal_ok e).2).sclr
   | begin_ dt => exact absurd rfl (hb dt)
   | end_ f => simp only [apply] at e; injection e with e; subst e; exact (endBlock_frame h.core.uniq).sclr
 
